@@ -140,7 +140,13 @@ class ElectionProfile:
             else:
                 profile.nBallots += multiplier
                 ranking = [rank[0] for rank in ranking] # possibly empty
-                self.ranking = array.array('B' if profile.nCand <= 256 else 'H', ranking)
+                if profile.nCand < 256:
+                    typecode = 'B'  # unsigned char: 0..255
+                elif profile.nCand < 65536:
+                    typecode = 'H'  # unsigned short: 0..65535
+                else:
+                    typecode = 'L'  # unsigned long: at least 32 bits
+                self.ranking = array.array(typecode, ranking)
 
     def __validate(self):
         "check profile for internal consistency"
